@@ -35,6 +35,10 @@ TNext ==
   \/ Is("FinSeen") /\ ended /\ finseen' = TRUE /\ UNCHANGED <<called, invoked, ended, destroyed>> /\ Adv
   \/ Is("Payload") /\ ended /\ E.a = 42 /\ UNCHANGED <<called, invoked, ended, destroyed, finseen>> /\ Adv
   \/ Is("JoinRet") /\ ended /\ E.a = 1 /\ E.b = ExpectedArgs /\ UNCHANGED <<called, invoked, ended, destroyed, finseen>> /\ Adv
+  \* the same Thread object is started again: everything the contract says starts afresh with the next StartCall,
+  \* in particular isFinished() must not be observed true (FinSeen) before the NEW callable has returned
+  \/ Is("Restart") /\ invoked = 1 /\ ended /\ (kind = 3 => destroyed)
+       /\ called' = FALSE /\ invoked' = 0 /\ ended' = FALSE /\ destroyed' = FALSE /\ finseen' = FALSE /\ Adv
   \/ Is("Done") /\ invoked = 1 /\ ended /\ (kind = 3 => destroyed) /\ UNCHANGED <<called, invoked, ended, destroyed, finseen>> /\ Adv
 TSpec == TInit /\ [][TNext]_vars
 Accepted == (l = Ix[x].e + 1) => PrintT(<<"ACCEPTED", x>>)
